@@ -192,3 +192,60 @@ impl MemfsEntryIter {
             }),                                                                                                     //@ clause lister.next_yields_the_snapshot_entry_of_the_next_child [C08]
 //@ body
 }
+
+// ---- the Stdfs lister (request level): Stdfs::entry_iter opens the directory with read_dir, StdfsEntryIter::next builds an entry
+// from the path of the next directory entry the OS reports (what the OS reports is the uninterpreted os_dir_listing)
+pub struct DirEnt { pub p: PathBuf }
+impl DirEnt {
+    #[verifier::external_body] pub fn path(&self) -> (r: PathBuf) ensures r.comps() == self.p.comps() { unimplemented!() }
+}
+#[verifier::external_body] pub struct ReadDir { x: u8 }
+impl ReadDir {
+    pub uninterp spec fn of(&self) -> Comps;                       // the directory it was opened on
+    pub uninterp spec fn rest(&self) -> Seq<RvResult<DirEnt>>;     // what the OS will still report (an io error is carried as RvError kind Io)
+    #[verifier::external_body]
+    pub fn next(&mut self) -> (r: Option<RvResult<DirEnt>>)
+        ensures final(self).of() == old(self).of(),
+                old(self).rest().len() == 0 ==> r is None && final(self).rest() == old(self).rest(),
+                old(self).rest().len() > 0 ==> r == Some(old(self).rest()[0]) && final(self).rest() == old(self).rest().skip(1)
+    { unimplemented!() }
+}
+pub uninterp spec fn os_dir_listing(p: Comps) -> RvResult<Seq<RvResult<DirEnt>>>;
+// R8: `fs::read_dir(path)?`
+#[verifier::external_body]
+pub fn os_read_dir(p: &PathBuf) -> (r: RvResult<ReadDir>)
+    ensures match r { Ok(d) => os_dir_listing(p.comps()) is Ok && d.rest() == os_dir_listing(p.comps())->Ok_0 && d.of() == p.comps(), Err(e) => os_dir_listing(p.comps()) is Err }
+{ unimplemented!() }
+//@ struct file=src/sys/fs/stdfs/entry.rs name=StdfsEntryIter
+//@ rw R9 1 ⟦fs::ReadDir⟧ => ⟦ReadDir⟧
+//@ endstruct
+// the per-directory iterator record built by the lister (R9: the boxed inner iterator is the Stdfs one here)
+pub struct EntryIter { pub path: PathBuf, pub cached: bool, pub following: bool, pub iter: StdfsEntryIter }
+impl RvError { pub fn rv(self) -> (r: RvError) ensures r == self { self } }
+
+//@ item stdfs_entry_iter file=src/sys/fs/stdfs/mod.rs block="impl Stdfs" fn=entry_iter props=C08,C12
+//@ sig pub(crate) fn entry_iter(path: &Path, follow: bool) -> RvResult<EntryIter>
+//@ rw R9 1 re⟦Box::new\(StdfsEntryIter \{(.*?)\}\)⟧ => ⟦StdfsEntryIter {\1}⟧
+//@ rw R8 1 ⟦fs::read_dir(path)?⟧ => ⟦os_read_dir(path)?⟧
+pub fn stdfs_entry_iter(path: &PathBuf, follow: bool) -> (r: RvResult<EntryIter>)
+    ensures
+        (r is Ok) == (os_dir_listing(path.comps()) is Ok),
+        r is Ok ==> r->Ok_0.path.comps() == path.comps() && !r->Ok_0.cached && r->Ok_0.following == follow
+            && r->Ok_0.iter.dir.of() == path.comps() && r->Ok_0.iter.dir.rest() == os_dir_listing(path.comps())->Ok_0,      //@ clause lister.stdfs_opens_the_given_directory_uncached_with_the_follow_flag [C08]
+//@ body
+
+impl StdfsEntryIter {
+//@ item stdfs_lister_next file=src/sys/fs/stdfs/entry.rs block="impl Iterator for StdfsEntryIter" fn=next props=C08,C12
+//@ sig fn next(&mut self) -> Option<RvResult<VfsEntry>>
+//@ rw R10 + re⟦trying!\(((?:[^()]|\((?:[^()]|\([^()]*\))*\))*)\)⟧ => ⟦(match \1 { Ok(v) => v, Err(err) => return Some(Err(err.rv())) })⟧
+    pub fn next(&mut self) -> (r: Option<RvResult<VfsEntry>>)
+        ensures
+            old(self).dir.rest().len() == 0 ==> r is None,
+            old(self).dir.rest().len() > 0 ==> r is Some && final(self).dir.rest() == old(self).dir.rest().skip(1) && ({
+                let d = old(self).dir.rest()[0];
+                // a read error is yielded as an error; otherwise the entry is built from the reported path (or the error of building it)
+                &&& d is Err ==> r->Some_0 is Err
+                &&& (d is Ok && r->Some_0 is Ok) ==> r->Some_0->Ok_0.std_path() == Some(d->Ok_0.p.comps())
+            }),                                                                                                       //@ clause lister.stdfs_next_builds_the_entry_of_the_next_reported_path [C08]
+//@ body
+}
